@@ -72,3 +72,64 @@ Print Assumptions C03_reads_agree.
 
 (* non-vacuity: a concrete reachable state whose Put has a torn image meeting all hypotheses *)
 Definition C03_nonvacuous := crash_put_nonvacuous.
+
+(* ---- the same on the bucket CHAINS (the index as index.go lays it out): for every crash image of a
+   Put / Delete / Sync / compaction step / Close of the chain-index database, the next Open succeeds
+   and Get / Has / Count / Items answer from the contents before or after the operation
+   (DBSimSessions.v: crash images of related runs are related; the recovering Open rebuilds related
+   indexes) *)
+From Pogreb Require Import Index DBSim DBProofsCompact DBRun DBSimSessions.
+Theorem C03_crash_during_put_on_the_real_index :
+  forall P seed (sp sp' : @DB.st pindex) (sf : @DB.st flat) k v o imgp,
+  params_ok P -> st_rel sp sf -> Inv P sf -> (exists m, s_mem sf = Some m /\ room m) -> bac_ok (s_disk sf) ->
+  Forall byte k -> Forall byte v -> nlen k <= max_key_len -> nlen v <= max_val_len ->
+  db_put chain_ops P k v (clear_trace sp) = (sp', o) ->
+  gcrash_image chain_ops (s_disk sp) (s_trace sp') imgp ->
+  let sf' := fst (db_put flat_ops P k v (clear_trace sf)) in
+  st_rel sp' sf' /\
+  exists imgf sp2 sf2,
+    disk_rel imgp imgf /\ before_or_after (s_disk sf) (s_disk sf') imgf /\
+    db_open chain_ops P seed (closedp imgp) = (sp2, OOpened true) /\
+    st_rel sp2 sf2 /\ Inv P sf2 /\ s_mem sf2 <> None /\
+    (answers P sp2 (abs (s_disk sf)) \/ answers P sp2 (sput (abs (s_disk sf)) k v)).
+Proof. exact chain_crash_put. Qed.
+Print Assumptions C03_crash_during_put_on_the_real_index.
+
+Theorem C03_crash_during_delete_on_the_real_index :
+  forall P seed (sp sp' : @DB.st pindex) (sf : @DB.st flat) k o imgp,
+  params_ok P -> st_rel sp sf -> Inv P sf -> (exists m, s_mem sf = Some m /\ room m) -> bac_ok (s_disk sf) ->
+  Forall byte k ->
+  db_delete chain_ops P k (clear_trace sp) = (sp', o) ->
+  gcrash_image chain_ops (s_disk sp) (s_trace sp') imgp ->
+  let sf' := fst (db_delete flat_ops P k (clear_trace sf)) in
+  st_rel sp' sf' /\
+  exists imgf sp2 sf2,
+    disk_rel imgp imgf /\ before_or_after (s_disk sf) (s_disk sf') imgf /\
+    db_open chain_ops P seed (closedp imgp) = (sp2, OOpened true) /\
+    st_rel sp2 sf2 /\ Inv P sf2 /\ s_mem sf2 <> None /\
+    (answers P sp2 (abs (s_disk sf)) \/ answers P sp2 (sdel (abs (s_disk sf)) k)).
+Proof. exact chain_crash_delete. Qed.
+Print Assumptions C03_crash_during_delete_on_the_real_index.
+
+Theorem C03_crash_during_compaction_step_on_the_real_index :
+  forall P seed (sp sp' : @DB.st pindex) (sf : @DB.st flat) c c' imgp,
+  params_ok P -> st_rel sp sf -> Inv P sf -> CInv sf c -> (exists m, s_mem sf = Some m /\ room m) ->
+  bac_ok (s_disk sf) ->
+  compact_step chain_ops P (clear_trace sp) c = CMore sp' c' ->
+  gcrash_image chain_ops (s_disk sp) (s_trace sp') imgp ->
+  exists imgf sp2 sf2,
+    disk_rel imgp imgf /\ db_open chain_ops P seed (closedp imgp) = (sp2, OOpened true) /\
+    st_rel sp2 sf2 /\ Inv P sf2 /\ s_mem sf2 <> None /\ answers P sp2 (abs (s_disk sf)).
+Proof. exact chain_crash_compact_step. Qed.
+Print Assumptions C03_crash_during_compaction_step_on_the_real_index.
+
+Theorem C03_crash_during_close_on_the_real_index :
+  forall P seed (sp sp1 : @DB.st pindex) (sf : @DB.st flat) o imgp,
+  params_ok P -> st_rel sp sf -> Inv P sf -> s_mem sf <> None -> bac_ok (s_disk sf) ->
+  db_close chain_ops (clear_trace sp) = (sp1, o) ->
+  gcrash_image chain_ops (s_disk sp) (s_trace sp1) imgp ->
+  exists imgf sp2 sf2 b,
+    disk_rel imgp imgf /\ db_open chain_ops P seed (closedp imgp) = (sp2, OOpened b) /\
+    st_rel sp2 sf2 /\ Inv P sf2 /\ s_mem sf2 <> None /\ answers P sp2 (abs (s_disk sf)).
+Proof. exact chain_crash_close. Qed.
+Print Assumptions C03_crash_during_close_on_the_real_index.
